@@ -3,7 +3,7 @@ from vlib.rtps_common import *
 
 RULE = ("a real RtpsStatefulWriter and a best-effort RtpsStatefulReader; 1-7 writes with payload sizes 0,1,f-1,f,f+1,2f,3f+1,... for "
         "f in {8,9,12,16,33,100,1000}, removals, late joiners, re-announcements of the match, and up to 40 adversary directives "
-        "(deliver any in-flight datagram, drop, duplicate) incl. fragments of one sample interleaved with later DATA; plus forged-HEARTBEAT cases (the same system cases with 1-3 HEARTBEATs of arbitrary first / last / flags and rising or stale counts injected at the reader under the writer GUID: directive forgehb, model side Reader.onHb) and GAP-replay cases "
+        "(deliver any in-flight datagram, drop, duplicate) incl. fragments of one sample interleaved with later DATA; plus forged-HEARTBEAT / forged-GAP cases (the same system cases with 1-3 HEARTBEATs of arbitrary first / last / flags and rising or stale counts, or GAPs of arbitrary start / base / bits, injected at the reader under the writer GUID: directives forgehb / forgegap, model side Reader.onHb / Reader.onGap) and GAP-replay cases "
         "(late joiner on a history with holes, a subset or all of the DATA and GAP datagrams duplicated, copies delivered last or first); "
         "non-trivial = >= 2 writes or a fragmented sample, >= 1 fault directive, >= 1 delivery")
 ASSUMPTIONS = ["the network does not forge datagrams (forgery is C06)",
@@ -34,6 +34,10 @@ CORPUS = [
     # a forged HEARTBEAT whose first lies below a first_available_seq_num the reader had raised itself (jump to sn 2), with an old
     # DATA and a copy of a delivered DATA still in flight: neither may be delivered afterwards
     ["init be vol 8", "match", "write x01", "write x02", "write x03", "deliver 1", "dup 1", "deliver 1", "forgehb 1 3 9 F l", "flush"],
+    # forged GAPs: an old range below what was delivered, a range that jumps ahead, bits far out in the window; copies of delivered
+    # DATA stay refused (C02_gap_never_rewinds), DATA behind the forged range is lost, which best-effort delivery permits
+    ["init be tl 8", "match", "write x01", "write x02", "write x03", "dup 0", "dup 1", "deliver 0", "deliver 0", "forgegap 0 1 -",
+     "forgegap 1 2 0,1", "flush", "forgegap 2 9 3,200", "write x04", "flush", "forgehb 1 4 3 f l", "flush"],
     # D42 exemplar (loss, not a C02 violation): the sample after a gap is never sent to a best-effort reader
     ["init be tl 8", "write x01", "write x02", "write x03", "remove 2", "match", "tick 1", "flush"],
 ]
@@ -62,7 +66,12 @@ def run(ctx):
         for _ in range(r.range(1, 4)):
             pos = r.range(2, len(lines))
             cnt = cnt + r.range(1, 500) if r.range(0, 4) else r.range(0, 3)
-            lines.insert(pos, f"forgehb {r.range(0, 12)} {r.range(0, 40)} {cnt} {r.choice(['F', 'f'])} {r.choice(['L', 'l'])}")
+            if r.range(0, 2) == 0:
+                # a GAP the writer never sent: any start / base, up to 6 set bits anywhere in the 256-bit window
+                offs = sorted(set(r.range(0, 9) if r.range(0, 3) else r.range(0, 255) for _ in range(r.range(0, 6))))
+                lines.insert(pos, f"forgegap {r.range(0, 12)} {r.range(0, 14)} {','.join(map(str, offs)) or '-'}")
+            else:
+                lines.insert(pos, f"forgehb {r.range(0, 12)} {r.range(0, 40)} {cnt} {r.choice(['F', 'f'])} {r.choice(['L', 'l'])}")
             if r.range(0, 1):
                 # keep copies of earlier datagrams in flight and deliver everything right after the forged HEARTBEAT
                 lines.insert(pos + 1, "flush")
